@@ -17,6 +17,7 @@ import copy
 import gzip
 import lzma
 import os
+import shutil
 
 import numpy as np
 
@@ -98,6 +99,8 @@ def gen_spec(seed, index, tier):
     # mutated by one call must not leak into the next)
     # documented fall-back order when the saved file carries neither forces nor force constants:
     # FORCE_CONSTANTS (5) > force_constants.hdf5 (6) > FORCE_SETS (7), each from a differently scaled model
+    # a file named explicitly in the load() call precedes what the yaml holds (documented priority 1 and 2 before 3 and 4)
+    spec["explicit"] = rng.choice([None, None, None, None, "force_constants_filename", "force_sets_filename"])
     spec["fallback"] = sorted(rng.sample(["FORCE_CONSTANTS", "force_constants.hdf5", "FORCE_SETS"], rng.randint(2, 3))) if rng.random() < 0.25 else []
     spec["pre_saves"] = []
     if rng.random() < 0.35:
@@ -305,6 +308,11 @@ def child_reader(args):
     rd = spec["read"]
     kw = dict(is_compact_fc=rd["is_compact_fc"], symmetrize_fc=rd["symmetrize_fc"], produce_fc=spec["obj"]["dataset"] != "t2",
               is_symmetry=spec["obj"]["is_symmetry"], log_level=0)
+    if spec.get("explicit") == "force_constants_filename":
+        kw["force_constants_filename"] = "explicit_FORCE_CONSTANTS"
+    elif spec.get("explicit") == "force_sets_filename":
+        kw["force_sets_filename"] = "explicit_FORCE_SETS"
+        kw["produce_fc"] = True
     out = {"stream_reads": 0}
     if rd["mode"] == "stream":
         from phonopy.file_IO import get_io_module_to_decompress
@@ -556,7 +564,17 @@ def execute(spec):
                     fb_expect = (name, FB[name])
                     break
             faults["fallback_discovery:" + "+".join(spec["fallback"])] = 1
-        rout = sub(child_reader, (spec, path, fn, spec["generations"] == 2 and fb_expect is None))
+        explicit = spec.get("explicit") if fb_expect is None else None
+        if explicit:
+            with simfs.RunDir("c16x-") as alt:
+                name_ = "FORCE_CONSTANTS" if explicit == "force_constants_filename" else "FORCE_SETS"
+                sub(child_stale, (dict(spec, stale=[name_], stale_scales={name_: 0.8}), alt.path))
+                shutil.copy(os.path.join(alt.path, name_), os.path.join(path, "explicit_" + name_))
+            faults["explicit_file_argument:" + explicit] = 1
+            # force_sets_filename decides the force constants only if neither call argument nor yaml supplies force constants... the
+            # documented order puts force_constants_filename (1) and force_sets_filename (2) before anything in the yaml (3, 4)
+            fb_expect = ("explicit:" + explicit, 0.8)
+        rout = sub(child_reader, (dict(spec, explicit=explicit), path, fn, spec["generations"] == 2 and fb_expect is None))
         if "load_raised" in rout:
             # a file written by save() (plus files the documented discovery list allows) must load
             V("reload-differs", "load-raises:" + rout["load_raised"].split(":")[0], detail=rout["load_raised"], filename=fn, saved=saved, stale=sorted(allowed))
@@ -570,14 +588,18 @@ def execute(spec):
             want = wout["fc_model_full"] * scale
             got = rs["fc"]
             if got is None:
-                V("discovery-order", "fallback:%s:no-force-constants" % name, present=spec["fallback"])
+                V("discovery-order", "%s:no-force-constants" % (name if name.startswith("explicit:") else "fallback:" + name), present=spec["fallback"])
             else:
                 if got.shape[0] != got.shape[1]:
                     want = want[ws["p2s_map"]]
                 dd = float(np.max(np.abs(got - want)))
-                if dd > 1e-7 * max(1.0, float(np.max(np.abs(want)))):
-                    V("discovery-order", "fallback:expected-%s" % name, maxdiff=dd, present=spec["fallback"], doc="FORCE_CONSTANTS (5) > force_constants.hdf5 (6) > FORCE_SETS (7)")
+                # force constants rebuilt from a FORCE_SETS file carry its print quantum (10 decimals of the forces / 0.03 A)
+                rel_tol = 1e-6 if name in ("FORCE_SETS", "explicit:force_sets_filename") else 1e-7
+                if dd > rel_tol * max(1.0, float(np.max(np.abs(want)))):
+                    V("discovery-order", ("%s-ignored" % name if name.startswith("explicit:") else "fallback:expected-%s" % name), maxdiff=dd, present=spec["fallback"], doc="FORCE_CONSTANTS (5) > force_constants.hdf5 (6) > FORCE_SETS (7)")
             ws = dict(ws, D=None, dataset=None)  # phonons / forces now come from the discovered files, not from W's state
+            if name.startswith("explicit:"):
+                ws = dict(ws, fc=rs["fc"])  # judged above against the explicit file
         stale_present = sorted(n for n in allowed if os.path.exists(os.path.join(path, n)))
         for name, why in compare_snaps(ws, rs, dec, saved, spec["obj"], spec["read"]):
             site = name + ("|stale-files-present" if stale_present else "")
